@@ -570,3 +570,26 @@ GAPS['C07'] = ['AllConnGraph.set_subarray (write-back through NumPy views / copi
                'name resolution (absolute / promoted / auto-IVC) and the delegation Problem.set_val -> System -> AllConnGraph.set_val/get_val: BOUNDED tier only',
                'behaviour being the same before final_setup, after final_setup and after run_model: BOUNDED tier only (three phases, read back after each later phase)',
                'incompatible units (TypeError text), discrete variables, distributed variables / get_remote, src_indices chains on the connected input']
+
+
+def _c12_extra(tier, seed, native_run):
+    out = {'violations': [], 'errors': []}
+    r = _run_bounded('c12_approx.py', [tier], timeout=6000)
+    if 'error' in r:
+        out['errors'].append('bounded approximation tier could not run: ' + r['error'])
+        return out
+    out['bounded_approximations'] = {
+        'note': 'BOUNDED stand-in (not counted in obligations): real components with approximated partials; coloured == uncoloured approximation (same formula and steps: round-off agreement), approximation within the truncation error of its method vs the exact derivative, inputs/outputs/residuals bitwise unchanged after three consecutive approximations',
+        'bound': 'sparsity {diagonal, banded, arrowhead, dense} x n in {4%s}; x: fd forward/central/backward, step_calc abs/rel_avg/rel_element, cs; z declared after x with its own step/form; colouring {none, wrt=*, wrt=[x]}'
+                 % (', 6' if tier != 'quick' else ''),
+        'evaluations': r['evaluations'], 'distinct_nontrivial': r['distinct_nontrivial'], 'exhaustive': True, 'failures': r['n_failures'],
+        'colouring_declared_but_not_activated_by_openmdao': r.get('coloring_not_activated'), 'samples': r['samples']}
+    for f in r['failures'][:3]:
+        out['violations'].append(dict(f, what='approximation: ' + f['kind'], witness_id='c12-%s' % json_key(f)))
+    return out
+
+
+EXTRA_TIERS['C12'] = _c12_extra
+GAPS['C12'] = ['truncation error for non-polynomial functions: BOUNDED tier only (smooth test functions, tolerance proportional to the step)', 'coloured approximation equals uncoloured (ApproximationScheme._init_colored_approximations / _colored_column_iter): BOUNDED tier only',
+               'step_calc=rel_element and directional options of _get_approx_data', 'compute_approx_col_iter generator (save / finally restore of FD mode)',
+               'ComplexStep: outputs/residuals after a point, nested complex-step fallback to FD', 'approximated totals (group level), semi-total colourings']
